@@ -165,3 +165,97 @@ Theorem chunk_cache_exact_pinned_refuted :
   scan_batch nat nat pass val true 2 ["n"] [[1; 5]; [7; 2]] = ([5; 7], [("n", [5; 7])]).
 Proof. exact d8_refuted_lemma. Qed.
 Print Assumptions chunk_cache_exact_pinned_refuted.
+
+(* ------------------------------------------------------------------ batch mode, FULL: the chunk caches are invisible *)
+(* Model/CacheVec.v: the vector evaluator (Model/EvalVec.v, C03) with ExecuteCtx's two chunk maps
+   as state (FieldReferenceExpr.ExecuteBatch: lookup by name and first key of the chunk / evaluate
+   the definition, store, append), the scans' Batch (refills, chooseIdxes, AdjustChunkCache) and
+   ProjectionPlan.Batch / processProjectionBatch (GetChunkFieldFinalResult).
+   [keyfix = false] is the code as it is (per-chunk entries keyed by the TEXT name-key),
+   [keyfix = true] a GetChunkFieldResult / SetChunkFieldResult keyed by the pair (name, key).
+   [names_ok keyfix s]: nothing for keyfix = true; no '-' in a field name for keyfix = false. *)
+From KV Require Import Model.EvalVec Model.ScanProj Model.CacheVec Proofs.CacheVecProofs.
+
+(* cache off: the evaluator with the context IS the cache-free vector evaluator and leaves the
+   context alone (a chunk a plan hands to ExecuteBatch is never empty) *)
+Theorem vec_cache_off_is_eval_batch : forall (fo : fops) re keyfix e kv0 ch0 c,
+  eval_batch_c fo re keyfix false e (kv0 :: ch0) c = liftv fo (eval_batch fo re true e (kv0 :: ch0)) c.
+Proof. exact eval_batch_c_off. Qed.
+Print Assumptions vec_cache_off_is_eval_batch.
+
+(* cache on, one chunk: started in a context [c] that is right for the chunk with the aliases T
+   evaluated (Qon: every per-chunk entry (a, first key) is eval_batch (definition of a) on the chunk
+   with the cache off, entries of other chunks untouched, every accumulated column extended once),
+   evaluation returns exactly what the cache-free evaluator returns -- values or error -- and
+   leaves a context that is right with the aliases of e (brefs e) evaluated as well.  [Hinj]: two
+   (name, key) pairs with names of the select list address the same entry only if they are equal. *)
+Theorem vec_cache_invisible_expr : forall (fo : fops) re keyfix env kv0 ch0 c0,
+  (forall a a' k1 k2, lookup env a <> None -> lookup env a' <> None ->
+     keq keyfix (a, k1) (a', k2) = true -> a = a' /\ k1 = k2) ->
+  forall e, coherent env e = true -> forall T c, Qon fo re keyfix env kv0 ch0 c0 T c ->
+  simv fo (Qon fo re keyfix env kv0 ch0 c0 (brefs e ++ T))
+       (eval_batch fo re true e (kv0 :: ch0)) (eval_batch_c fo re keyfix true e (kv0 :: ch0) c).
+Proof. exact eval_batch_c_on. Qed.
+Print Assumptions vec_cache_invisible_expr.
+
+(* what a scan's Batch does with its filter: ExecuteBatch on successive non-empty chunks with
+   different first keys, all on ONE context: chunk by chunk the outcome of the cache-free
+   evaluator, up to and including the first error *)
+Theorem vec_cache_invisible_chunks : forall (fo : fops) re keyfix s e (chunks : list (list kvpair)),
+  stmt_ok s = true -> names_ok keyfix s = true -> coherent (env_of s) e = true ->
+  Forall (fun ch => ch <> []) chunks -> NoDup (map first_key chunks) ->
+  eval_seq_c fo re keyfix true e chunks (ctx0 fo) = eval_seq_c fo re keyfix false e chunks (ctx0 fo).
+Proof. exact eval_seq_invisible. Qed.
+Print Assumptions vec_cache_invisible_chunks.
+
+(* the whole batch drain (scan Batch loop with chooseIdxes / AdjustChunkCache, projection from the
+   accumulated columns, Batch until empty) with the cache disabled is C03's cache-free drain ... *)
+Theorem batch_cache_off_is_select : forall (fo : fops) re keyfix s B (slots : list (option kvpair)),
+  stmt_ok s = true ->
+  drain_batch_c fo re keyfix false s B slots = select_batch fo re B (s_where s) (Some (s_fields s)) slots.
+Proof. exact drain_batch_c_off_is_select. Qed.
+Print Assumptions batch_cache_off_is_select.
+
+(* ... and with the cache enabled it returns exactly the same batches, errors included: for EVERY
+   accepted statement, EVERY stream of slots with pairwise different keys (cursor pairs, point
+   reads with missing keys), EVERY batch size *)
+Theorem batch_cache_on_is_select : forall (fo : fops) re keyfix s B (slots : list (option kvpair)),
+  stmt_ok s = true -> names_ok keyfix s = true -> NoDup (map fst (somes slots)) ->
+  drain_batch_c fo re keyfix true s B slots = select_batch fo re B (s_where s) (Some (s_fields s)) slots.
+Proof. exact drain_batch_c_on_is_select. Qed.
+Print Assumptions batch_cache_on_is_select.
+
+Theorem cache_invisible_batch : forall (fo : fops) re keyfix s B (slots : list (option kvpair)),
+  stmt_ok s = true -> names_ok keyfix s = true -> NoDup (map fst (somes slots)) ->
+  drain_batch_c fo re keyfix true s B slots = drain_batch_c fo re keyfix false s B slots.
+Proof. exact cache_invisible_batch_lemma. Qed.
+Print Assumptions cache_invisible_batch.
+
+(* non-vacuity: select key, int(value) as n where n > 2 over k0=1 k1=5 k2=2 k3=7 in batches of 2:
+   one Batch call filters two refills, rejects one pair of each and projects n from the
+   accumulated, adjusted column *)
+Example batch_premise_satisfiable : forall keyfix,
+  stmt_ok w_stmt = true /\ names_ok keyfix w_stmt = true /\ NoDup (map fst (somes (map Some w_store))).
+Proof. exact wv_premise. Qed.
+
+Example batch_rows_nonvacuous : forall (fo : fops) re keyfix on,
+  drain_batch_c fo re keyfix on w_stmt 2 (map Some w_store)
+  = Ok [[[VBytes "k1"; VInt 5%Z]; [VBytes "k3"; VInt 7%Z]]].
+Proof. exact wv_rows. Qed.
+
+(* the premise on the names is necessary for the code as it is: the per-chunk entries are keyed by
+   the text name-key.   select key, value as a, upper(key) as `a-b` where a = '9' | `a-b` = 'C'
+   over b-c=1 c=2 d=3 in batches of 1: alias a on the chunk starting at "b-c" and alias a-b on the
+   chunk starting at "c" share the text "a-b-c"; cache on: no row, cache off: the row of c.
+   Keyed by the pair, the statement holds for it (third equation). *)
+Theorem cache_invisible_batch_text_key_refuted : forall (fo : fops) re,
+  drain_batch_c fo re false true wd_stmt 1 wd_slots = Ok [] /\
+  drain_batch_c fo re false false wd_stmt 1 wd_slots = Ok [[[VBytes "c"; VBytes "2"; VStr "C"]]] /\
+  drain_batch_c fo re true true wd_stmt 1 wd_slots = Ok [[[VBytes "c"; VBytes "2"; VStr "C"]]].
+Proof. exact wd_refuted. Qed.
+Print Assumptions cache_invisible_batch_text_key_refuted.
+
+Example text_key_witness_premises :
+  stmt_ok wd_stmt = true /\ NoDup (map fst (somes wd_slots)) /\
+  names_ok false wd_stmt = false /\ names_ok true wd_stmt = true.
+Proof. exact wd_premises. Qed.
